@@ -5,7 +5,7 @@
    (Proofs/EncXmlProofs.v §2), hypotheses node_ok / lang_ok (boolean). *)
 From Coq Require Import List NArith Bool.
 From Wbxml Require Import Model.TablesDefs Model.Codec Model.EncXml Model.XmlRead Gen.TablesData
-     Proofs.EncXmlProofs Proofs.EncXmlTables.
+     Proofs.EncXmlProofs Proofs.EncXmlIndent Proofs.EncXmlTables.
 Import ListNotations.
 Local Open Scope N_scope.
 
@@ -34,16 +34,30 @@ Print Assumptions C05_canonical_preserves_cr_lf_tab.
 
 (* --- reading the document back ------------------------------------------------------------------------- *)
 
-(* PARTIAL (first layer, proved in full generality for it): compact and canonical generation, trees made of
-   elements (token or literal names, attributes, namespaces per code page) and text, binary-flagged elements
-   excluded; hypotheses = the property's, as boolean predicates (node_ok: names are XML names, text and
-   attribute values are XML characters, no attribute name twice — counting the generated xmlns —, and no raw CR
-   outside canonical generation since a reader normalises it).  The reader accepts the output, the DOCTYPE is
-   the language's (doc_of l), the infoset is the specified one.
-   MISSING from the theorem (corresponded by the check against pyexpat only): indented generation of mixed
-   content (equality modulo blank text between markup), CDATA sections and embedded documents, base64 of
-   binary-flagged elements, raw CR in non-canonical modes. *)
-Theorem C05_read_enc_partial : forall l g indent keep_ws nm attrs ch out,
+(* PARTIAL in the kinds of nodes only: EVERY generation mode (compact, indented with any width and at any depth —
+   the 8-bit depth counter is threaded mod 256 —, canonical) and both white-space settings, for trees made of
+   elements (token or literal names, attributes, namespaces per code page) and text; hypotheses = the
+   property's, as boolean predicates (node_ok: names are XML names, text and attribute values are XML
+   characters, no attribute name twice — counting the generated xmlns —, no raw CR outside canonical
+   generation since a reader normalises it, text not under a binary-flagged tag).  The reader accepts the
+   output, the DOCTYPE is the language's (doc_of l), the root element is the specified one: info_g, the exact
+   infoset including the white space that indented generation writes between markup (and nowhere else).
+   MISSING from the theorem (corresponded by the check against pyexpat only): CDATA sections and embedded
+   documents, base64 of binary-flagged elements, raw CR in non-canonical modes. *)
+Theorem C05_read_enc_partial : forall l o nm attrs ch out,
+  lang_ok l = true ->
+  node_ok l o proot None (Elt nm attrs ch) = true ->
+  enc_xml_opts l o [Elt nm attrs ch] = XOk out ->
+  exists c s',
+    info_g l o proot (est0 0) (Elt nm attrs ch) =
+      Some ([XT []; XE (tname_bytes nm) (spec_attrs l o proot nm attrs) c; XT (nl_if o)], s') /\
+    forall fuel, (node_fuel (Elt nm attrs ch) + 2 <= fuel)%nat ->
+      read_xml fuel out = ROk (doc_of l [XE (tname_bytes nm) (spec_attrs l o proot nm attrs) c]).
+Proof. exact read_enc_g. Qed.
+Print Assumptions C05_read_enc_partial.
+
+(* the same for compact and canonical generation with the white-space-free specification info_node *)
+Theorem C05_read_enc_noindent_partial : forall l g indent keep_ws nm attrs ch out,
   g <> Indent -> lang_ok l = true ->
   node_ok l (opts_of_params g indent keep_ws) proot None (Elt nm attrs ch) = true ->
   enc_xml l g indent keep_ws [Elt nm attrs ch] = XOk out ->
@@ -51,20 +65,23 @@ Theorem C05_read_enc_partial : forall l g indent keep_ws nm attrs ch out,
     info_node l (opts_of_params g indent keep_ws) proot None (Elt nm attrs ch) = Some items /\
     forall fuel, (node_fuel (Elt nm attrs ch) + 2 <= fuel)%nat -> read_xml fuel out = ROk (doc_of l items).
 Proof. exact read_enc_compact_canonical. Qed.
-Print Assumptions C05_read_enc_partial.
+Print Assumptions C05_read_enc_noindent_partial.
 
 (* every language of the regenerated tables satisfies lang_ok (re-checked by computation on every run) *)
 Theorem C05_lang_ok_main : forall l, In l (map xlang_of main_table) -> lang_ok l = true.
 Proof. exact lang_ok_in. Qed.
 Print Assumptions C05_lang_ok_main.
 
-(* DOCTYPE = the language's whenever the output is readable at all (non-indented generation) *)
-Theorem C05_doctype_partial : forall l o body fuel d,
-  is_indent o = false -> lang_ok l = true ->
+(* DOCTYPE = the language's whenever the output is readable at all (every generation mode; full) *)
+Theorem C05_doctype : forall l o body fuel d,
+  lang_ok l = true ->
   read_xml fuel (xml_header l o ++ body) = ROk d ->
   d_root_name d = xl_root l /\ d_public d = xl_pub l /\ d_system d = xl_dtd l.
-Proof. exact doctype_is_languages. Qed.
-Print Assumptions C05_doctype_partial.
+Proof.
+  intros l o body fuel d HL H. rewrite (header_read_g l o fuel body HL) in H.
+  destruct (p_root fuel (skip_ws body)); try discriminate. injection H as <-. auto.
+Qed.
+Print Assumptions C05_doctype.
 
 (* no indentation is ever added inside an element that has only text: indented generation of such an element is
    its compact text, preceded by the indentation of its line and followed by one line break (full for this clause;
@@ -102,8 +119,7 @@ Print Assumptions C05_witness_language.
 
 (* compact and canonical generation of one tree are read back as the SAME document (white space kept; no TAB,
    LF or CR in attribute values, which non-canonical generation leaves to XML's attribute-value normalisation).
-   PARTIAL for C07: indented generation is covered for text-only elements by C05_indent_text_only_exact; the
-   equality modulo blank text for mixed content is corresponded by the check (pyexpat), not proved. *)
+   PARTIAL only in the kinds of nodes (elements and text). *)
 Theorem C07_xml_compact_canonical_partial : forall l i1 i2 nm attrs ch out1 out2,
   lang_ok l = true -> plain_attrs (Elt nm attrs ch) = true ->
   node_ok l (opts_of_params Compact i1 true) proot None (Elt nm attrs ch) = true ->
@@ -114,6 +130,22 @@ Theorem C07_xml_compact_canonical_partial : forall l i1 i2 nm attrs ch out1 out2
     exists d, read_xml fuel out1 = ROk d /\ read_xml fuel out2 = ROk d.
 Proof. exact c07_xml_compact_canonical. Qed.
 Print Assumptions C07_xml_compact_canonical_partial.
+
+(* indented generation with ANY indent width (an arbitrary N, reduced mod 256 as the C's WB_UTINY) at any nesting
+   depth (8-bit depth counter mod 256) and compact generation of one tree: both are accepted, carry the
+   language's DOCTYPE, and their root elements are equal modulo blank text between markup (nb: in every element
+   that has an element child each run of character data is trimmed and blank runs are dropped; elements with
+   only character data are compared exactly).  PARTIAL only in the kinds of nodes (elements and text). *)
+Theorem C07_xml_indent_compact_partial : forall l indent indent' keep_ws nm attrs ch out_i out_c,
+  lang_ok l = true ->
+  node_ok l (opts_of_params Compact indent' keep_ws) proot None (Elt nm attrs ch) = true ->
+  enc_xml l Indent indent keep_ws [Elt nm attrs ch] = XOk out_i ->
+  enc_xml l Compact indent' keep_ws [Elt nm attrs ch] = XOk out_c ->
+  forall fuel, (node_fuel (Elt nm attrs ch) + 2 <= fuel)%nat ->
+    exists ri rc,
+      read_xml fuel out_i = ROk (doc_of l [ri]) /\ read_xml fuel out_c = ROk (doc_of l [rc]) /\ nb ri = nb rc.
+Proof. exact c07_xml_indent_compact. Qed.
+Print Assumptions C07_xml_indent_compact_partial.
 
 (* --- the hypotheses are satisfiable --------------------------------------------------------------------- *)
 
